@@ -18,15 +18,17 @@
      "limit_ignores_reserved"  set_limit clamps a lowered limit to the cursor only
      "edns_no_check"           set_edns reserves without checking that eleven octets are left
      "clear_returns_reserved"  clear_rrs resets available to the limit
+     "template_keeps_limit"    try_from_template keeps the template's limit although the new buffer is smaller
      "tsig_compressed"         finish() writes a TSIG record shorter than what was reserved (the state of
                                the code before repair #16: owner compressed, reservation for the full name) *)
 EXTENDS Naturals, Sequences
-CONSTANTS BufLen, QSizes, RSizes, TsigLens, Limits, Variant
+CONSTANTS BufLen, QSizes, RSizes, TsigLens, Limits, Bufs, Variant
 Header == 12
 Opt == 11
 
-VARIABLES cursor, avail, limit, rrstart, edns, tsig, nrr, fin, last
-vars == <<cursor, avail, limit, rrstart, edns, tsig, nrr, fin, last>>
+VARIABLES cursor, avail, limit, rrstart, edns, tsig, nrr, fin, last, buf
+vars == <<cursor, avail, limit, rrstart, edns, tsig, nrr, fin, last, buf>>
+\* buf = length of the buffer the writer currently writes into (BufLen at first; Retemplate moves it)
 \* fin = 0 while the writer is open, else the length finish() returned; tsig = 0 or the reserved length;
 \* nrr = records written since the last clear (only "are there any": questions must come first);
 \* last = outcome of the latest operation ("ok" / "Truncation" / "Already" / "OutOfOrder"), for the replay
@@ -38,7 +40,7 @@ Reserved == (IF edns THEN Opt ELSE 0) + tsig
 New(l) ==        \* Writer::new(buffer, l): every behaviour starts with it
   /\ Min(l, BufLen) >= Header
   /\ cursor = Header /\ avail = Min(l, BufLen) /\ limit = Min(l, BufLen) /\ rrstart = Header
-  /\ edns = FALSE /\ tsig = 0 /\ nrr = 0 /\ fin = 0 /\ last = "ok"
+  /\ edns = FALSE /\ tsig = 0 /\ nrr = 0 /\ fin = 0 /\ last = "ok" /\ buf = BufLen
 \* (the model starts from a Writer over the whole buffer; Writer::new(buffer, l) = that followed by SetLimit(l))
 Init == New(BufLen)
 
@@ -49,48 +51,58 @@ AddQuestion(sz) ==
   /\ IF nrr > 0 THEN last' = "OutOfOrder" /\ UNCHANGED <<cursor, rrstart>>
      ELSE IF cursor + sz > avail THEN last' = "Truncation" /\ UNCHANGED <<cursor, rrstart>>
      ELSE cursor' = cursor + sz /\ rrstart' = cursor + sz /\ last' = "ok"
-  /\ UNCHANGED <<avail, limit, edns, tsig, nrr, fin>>
+  /\ UNCHANGED <<avail, limit, edns, tsig, nrr, fin, buf>>
 
 AddRR(sz) ==
   /\ Open
   /\ IF cursor + sz > avail THEN last' = "Truncation" /\ UNCHANGED <<cursor, nrr>>
      ELSE cursor' = cursor + sz /\ nrr' = 1 /\ last' = "ok"
-  /\ UNCHANGED <<avail, limit, rrstart, edns, tsig, fin>>
+  /\ UNCHANGED <<avail, limit, rrstart, edns, tsig, fin, buf>>
 
 SetLimit(n) ==
   /\ Open /\ last' = "ok"
   /\ IF n >= limit
-     THEN LET nl == Min(n, BufLen) IN limit' = nl /\ avail' = avail + (nl - limit)
+     THEN LET nl == Min(n, buf) IN limit' = nl /\ avail' = avail + (nl - limit)
      ELSE LET floor == IF Variant = "limit_ignores_reserved" THEN cursor ELSE cursor + (limit - avail)
               nl == Max(n, floor) IN
           limit' = nl /\ avail' = IF limit - nl > avail THEN 0 ELSE avail - (limit - nl)
-  /\ UNCHANGED <<cursor, rrstart, edns, tsig, nrr, fin>>
+  /\ UNCHANGED <<cursor, rrstart, edns, tsig, nrr, fin, buf>>
 
 SetEdns ==
   /\ Open
   /\ IF edns THEN last' = "Already" /\ UNCHANGED <<avail, edns>>
      ELSE IF Variant # "edns_no_check" /\ cursor + Opt > avail THEN last' = "Truncation" /\ UNCHANGED <<avail, edns>>
      ELSE avail' = (IF avail >= Opt THEN avail - Opt ELSE 0) /\ edns' = TRUE /\ last' = "ok"
-  /\ UNCHANGED <<cursor, limit, rrstart, tsig, nrr, fin>>
+  /\ UNCHANGED <<cursor, limit, rrstart, tsig, nrr, fin, buf>>
 
 SetTsig(t) ==
   /\ Open
   /\ IF tsig > 0 THEN last' = "Already" /\ UNCHANGED <<avail, tsig>>
      ELSE IF cursor + t > avail THEN last' = "Truncation" /\ UNCHANGED <<avail, tsig>>
      ELSE avail' = avail - t /\ tsig' = t /\ last' = "ok"
-  /\ UNCHANGED <<cursor, limit, rrstart, edns, nrr, fin>>
+  /\ UNCHANGED <<cursor, limit, rrstart, edns, nrr, fin, buf>>
 
 Clear ==
   /\ Open /\ last' = "ok"
   /\ cursor' = rrstart /\ nrr' = 0
   /\ avail' = IF Variant = "clear_returns_reserved" THEN limit ELSE avail
-  /\ UNCHANGED <<limit, rrstart, edns, tsig, fin>>
+  /\ UNCHANGED <<limit, rrstart, edns, tsig, fin, buf>>
+
+\* into_template() followed by try_from_template() into a buffer of b octets: the message so far and the reservations
+\* move over; a buffer that cannot hold them is refused (the writer then lives on in a buffer of the old size, which
+\* changes nothing); a buffer smaller than the limit lowers the limit to its size
+Retemplate(b) ==
+  /\ Open
+  /\ IF b < cursor + (limit - avail) THEN last' = "Truncation" /\ UNCHANGED <<limit, avail, buf>>
+     ELSE LET nl == IF Variant = "template_keeps_limit" THEN limit ELSE Min(limit, b) IN
+          limit' = nl /\ avail' = Min(limit, b) - (limit - avail) /\ buf' = b /\ last' = "ok"
+  /\ UNCHANGED <<cursor, rrstart, edns, tsig, nrr, fin>>
 
 Finish ==
   /\ Open /\ last' = "ok"
   /\ fin' = cursor + (IF edns THEN Opt ELSE 0)
             + (IF tsig > 0 /\ Variant = "tsig_compressed" THEN tsig - 2 ELSE tsig)
-  /\ UNCHANGED <<cursor, avail, limit, rrstart, edns, tsig, nrr>>
+  /\ UNCHANGED <<cursor, avail, limit, rrstart, edns, tsig, nrr, buf>>
 
 Next == \/ \E sz \in QSizes : AddQuestion(sz)
         \/ \E sz \in RSizes : AddRR(sz)
@@ -98,14 +110,15 @@ Next == \/ \E sz \in QSizes : AddQuestion(sz)
         \/ SetEdns
         \/ \E t \in TsigLens : SetTsig(t)
         \/ Clear
+        \/ \E b \in Bufs : Retemplate(b)
         \/ Finish
 Spec == Init /\ [][Next]_vars
 
 \* ---- invariants
-Ordered == Header <= rrstart /\ rrstart <= cursor /\ cursor <= avail /\ avail <= limit /\ limit <= BufLen
+Ordered == Header <= rrstart /\ rrstart <= cursor /\ cursor <= avail /\ avail <= limit /\ limit <= buf
 ReservedKept == limit - avail = Reserved                 \* what was reserved stays reserved (set_limit, clear_rrs)
 FinishedFits == fin > 0 => fin <= limit                  \* C04 / C12: the finished message respects the limit in force
 ReservedUsedExactly == fin > 0 => fin = cursor + Reserved   \* #16: nothing reserved is left over (no truncation for nothing)
 \* a failed operation changes nothing
-FailureIsNoop == [][last' # "ok" => UNCHANGED <<cursor, avail, limit, rrstart, edns, tsig, nrr, fin>>]_vars
+FailureIsNoop == [][last' # "ok" => UNCHANGED <<cursor, avail, limit, rrstart, edns, tsig, nrr, fin, buf>>]_vars
 ====
